@@ -721,7 +721,15 @@ func runRefresh(rc *kernel.RunCtx, k *kernel.Kernel) {
 		for {
 			f := k.YieldOpts(kernel.Opts{
 				Site: "tick",
-				Pred: func() bool { return pending() != nil && (fired < maxTicks || s.shutdownReturned) },
+				// A timer is fired only while the worker goroutine is blocked
+				// (in its select) or gone, never while it is parked at a
+				// yield on its way there: otherwise a closed done channel and
+				// a due timer could both be ready when it arrives, and which
+				// one the Go runtime picks cannot be replayed.  (The one
+				// deliberate exception is the zeroRace mode.)
+				Pred: func() bool {
+					return pending() != nil && (fired < maxTicks || s.shutdownReturned) && s.loop != nil && s.loop.IsBlocked()
+				},
 				Act: func() any {
 					t := pending()
 					t.fired = true
